@@ -43,7 +43,7 @@ DOCS = [
     'Zeile eins Wabcq\nZeile zwei Wabdq\nZeile drei\nZeile vier Wabeq\nZeile f\u00fcnf\nZeile sechs\nZeile sieben\nZeile acht\nZeile neun\n',
 ]
 TYPES = [None, True, 7, 1.5, 'str', [], {}]
-PERT = [-1, 0, 1, 'len-1', 'len', 'len+1', 'len+2', 'len+3', 10 ** 6, -10 ** 6]
+PERT = [-1, 0, 1, 'len-1', 'len', 'len+1', 'len+2', 'len+3', 10 ** 6, -10 ** 6, 2 ** 31, 2 ** 62, -2 ** 62, 10 ** 30]
 
 
 def paths(obj, prefix=()):
